@@ -28,6 +28,7 @@ import (
 type Variants struct {
 	Base *Env
 	envs map[string]*Env
+	hung string // key of the last request that hung on a pipeline variant
 }
 
 func NewVariants() *Variants {
@@ -141,6 +142,7 @@ var _ grpc.ServerStream = (*loStream)(nil)
 
 func (e *Env) RunStreamedListObjects(ctx context.Context, ev *ListObjectsEv) {
 	ev.E = "ListObjects"
+	ev.IsErr, ev.Errk, ev.Err = false, "", ""
 	ev.Ctx = normCtx(ev.Ctx)
 	ev.Ctxt = normTuples(ev.Ctxt)
 	st := &loStream{ctx: ctx}
@@ -176,7 +178,21 @@ func limitOf(name string) int {
 }
 
 // RunLO runs ev on the variant named ev.Eng.
-func (v *Variants) RunLO(ctx context.Context, ev *ListObjectsEv) {
+//
+// It reports false (event not executed, must not be recorded) when the same request
+// already hung on another tuning variant of the pipeline engine: a hung call costs
+// the whole watchdog period and leaks the server's goroutines, so one observation per
+// request is enough.
+func (v *Variants) RunLO(ctx context.Context, ev *ListObjectsEv) bool {
+	key := hashOf([]any{v.Base.StoreID, ev.T, ev.R, ev.U, ev.Ctx, ev.Ctxt})
+	if strings.HasPrefix(ev.Eng, "pipeline") && v.hung == key {
+		return false
+	}
+	defer func() {
+		if ev.Errk == "hang" {
+			v.hung = key
+		}
+	}()
 	e := v.Get(ev.Eng)
 	ev.Limit = limitOf(ev.Eng)
 	if os.Getenv("VERIF_DEBUG") != "" {
@@ -188,6 +204,7 @@ func (v *Variants) RunLO(ctx context.Context, ev *ListObjectsEv) {
 	} else {
 		e.RunListObjects(ctx, ev)
 	}
+	return true
 }
 
 // ---------------------------------------------------------------- C02
@@ -264,7 +281,9 @@ func C02(run *Run) {
 			}
 			for _, eng := range loEngines {
 				ev := &ListObjectsEv{Eng: eng, T: q.O.T, R: q.R, U: q.U, Ctx: q.Ctx}
-				v.RunLO(ctx, ev)
+				if !v.RunLO(ctx, ev) {
+					continue
+				}
 				rec.Add(ev)
 				run.Evals++
 			}
@@ -299,7 +318,7 @@ func C05(run *Run) {
 	engines := []string{"classic", "weighted", "pipeline", "classic:stream", "pipeline:stream", "classic:l1", "classic:l2", "weighted:l1", "weighted:l2",
 		"pipeline:l1", "pipeline:l2", "pipeline:c1:q1:p1", "pipeline:c2:q0:p3:l2"}
 	for c := 0; c < nCases; c++ {
-		cs, _ := GenCase(r, c, GenOpts{MinTuples: 8})
+		cs, _ := GenCase(r, c, GenOpts{MinTuples: 10, MultiParent: 0.6})
 		if err := v.Base.Setup(ctx, cs.Model, cs.Tuples); err != nil {
 			run.Inconclusive("setup failed: %v", err)
 		}
@@ -307,14 +326,16 @@ func C05(run *Run) {
 		ctxs := GenReqCtxs(r, cs.Model)
 		subs := GenSubjects(cs.Model)
 		for i := 0; i < 5; i++ {
-			t := pick(r, []string{"doc", "doc", "folder", "group"})
+			t := pick(r, []string{"doc", "doc", "doc", "folder", "group"})
 			rels := cs.Model.RelsOf(t)
 			rel := pick(r, rels)
 			u := pick(r, subs)
 			cx := pick(r, ctxs)
 			for _, eng := range engines {
 				ev := &ListObjectsEv{Eng: eng, T: t, R: rel, U: u, Ctx: cx}
-				v.RunLO(ctx, ev)
+				if !v.RunLO(ctx, ev) {
+					continue
+				}
 				rec.Add(ev)
 				run.Evals++
 			}
@@ -563,7 +584,9 @@ func C04(run *Run) {
 			if i%4 == 0 {
 				for _, eng := range loEngines {
 					ev := &ListObjectsEv{Eng: eng, T: q.O.T, R: q.R, U: q.U, Ctx: q.Ctx, Ctxt: ct}
-					v.RunLO(ctx, ev)
+					if !v.RunLO(ctx, ev) {
+						continue
+					}
 					if ev.IsErr && ev.Errk != "cond" && strings.Contains(ev.Err, "nvalid") {
 						skippedInvalid++
 						continue
